@@ -1,6 +1,7 @@
 package main
 
 import (
+	"os"
 	"fmt"
 	"strings"
 	"go/ast"
@@ -436,6 +437,14 @@ func (fr *Frame) frameHeaps(c *Contract, f *types.Func, ms *modSet) error {
 
 // havocMod forgets the locations in ms.
 func (fr *Frame) havocMod(s *State, ms *modSet) {
+	if dbg := os.Getenv("GOVC_DEBUG_MODS"); dbg != "" && strings.Contains(fr.vc.fn, dbg) {
+		var hn []string
+		for k := range ms.heaps {
+			hn = append(hn, k)
+		}
+		sort.Strings(hn)
+		fmt.Fprintf(os.Stderr, "govc: loop mod set of %s: all=%v heaps=%v\n", fr.vc.fn, ms.all, hn)
+	}
 	if ms.all {
 		fr.havocEverything(s)
 	} else {
@@ -654,6 +663,7 @@ func (fr *Frame) execFor(s *State, x *ast.ForStmt, label string) *State {
 	lc := fr.pushLoop(label, false)
 	lc.spec, lc.ord = spec, ord
 	end := fr.execBlock(sb, x.Body.List)
+	fr.stepHints(end, lc, x.Body.Rbrace)
 	fr.popLoop()
 	cont := mergeAll(append([]*State{end}, lc.continues...))
 	if cont != nil {
@@ -798,7 +808,9 @@ func (fr *Frame) execRange(s *State, x *ast.RangeStmt, label string) *State {
 	}
 	lc := fr.pushLoop(label, false)
 	lc.spec, lc.ord = spec, ord
+	lc.extra = extra(k) // in hints, idx_ is the index of the element being processed
 	end := fr.execBlock(sb, x.Body.List)
+	fr.stepHints(end, lc, x.Body.Rbrace)
 	fr.popLoop()
 	cont := mergeAll(append([]*State{end}, lc.continues...))
 	if cont != nil && spec != nil {
@@ -893,6 +905,7 @@ func (fr *Frame) execRangeMap(s *State, x *ast.RangeStmt, label string, coll *Va
 	lc := fr.pushLoop(label, false)
 	lc.spec, lc.ord = spec, ord
 	end := fr.execBlock(sb, x.Body.List)
+	fr.stepHints(end, lc, x.Body.Rbrace)
 	fr.popLoop()
 	cont := mergeAll(append([]*State{end}, lc.continues...))
 	if cont != nil && spec != nil {
